@@ -10,6 +10,9 @@
         c ∈ - A B a b, l ∈ - L M l m; "-" = nil field, lower case = a map that answers ""); model = Config.run
         (SetConfig statement by statement) then the site's wiring, spec = Config.spec (last non-nil value per
         field since the last reset) then firstConfigured; the winner carries the tag of the map (gA, lM, d)
+    c18 dep <site> <spec>                                       → issue-dependent maps: spec = the map kinds of c,s,p,g,l
+        (K T N I O Z F E, - = not configured); model = Site.winnerDep (FinalizeIssue on the sources the site passes, applied
+        to the features of the raw issue from Gen.leafSeen), spec = specDep (first configured source that has an answer)
     c18 loc <locale> <kind>                                      → "<model> <spec>"
         model = the entry of the regenerated Gen.localeTable, spec = 1
 -/
@@ -17,16 +20,25 @@ import Gozod.Model.Msg
 import Gozod.Model.Config
 import Gozod.Gen.MsgWiring
 import Gozod.Gen.LocaleTable
+import Gozod.Gen.IssueSites
 namespace Gozod.Drv.C18
 open Gozod.Msg
 
 /-- `leaf@wrapper`; a two-level site `leaf@outer>inner` (thorough tier) is predicted from the entry of
     `leaf@inner`: an outer container must not change which sources reach the leaf's issue. -/
 def findSite (id : String) : Option Site :=
-  let id' := match id.splitOn "@" with
-    | [leaf, w] => leaf ++ "@" ++ ((w.splitOn ">").getLast?.getD w)
-    | _ => id
-  Gozod.Gen.sites.find? (fun s => s.leaf ++ "@" ++ s.wrapper == id')
+  match id.splitOn "@" with
+  | [leaf, w] =>
+    let chain := w.splitOn ">"
+    let inner := chain.getLast?.getD w
+    -- a position of the chain that does not forward the context loses the per-parse map for everything below it
+    let lost := chain.dropLast.any fun n =>
+      match Gozod.Gen.positions.find? (fun p => p.name == n) with
+      | some p => !p.forwardsCtx
+      | none => false
+    (Gozod.Gen.sites.find? (fun s => s.leaf == leaf && s.wrapper == inner)).map fun s =>
+      if lost then { s with passes := { s.passes with parse := false }, passesSilentCheck := { s.passesSilentCheck with parse := false } } else s
+  | _ => none
 
 def setOf (s : String) : SrcSet := if s == "-" then SrcSet.empty else SrcSet.ofString s
 
@@ -67,13 +79,22 @@ def handle : List String → String
     | some s, some calls =>
       s!"{histWinner s.passes s.base (Gozod.Config.run calls)} {histWinner all5 "d" (Gozod.Config.spec calls)}"
     | _, _ => "bad-op -"
+  | ["dep", site, spec] =>
+    -- issue-dependent maps: the raw issue's features come from the regenerated `Gen.leafSeen`
+    match findSite site with
+    | some s =>
+      match Gozod.Gen.leafSeen.lookup (s.leaf ++ "@" ++ s.wrapper) with
+      | some f => s!"{s.winnerDep spec.toList f} {specDep spec.toList f}"
+      | none => "no-such-leaf -"
+    | none => "no-such-site -"
   | ["loc", loc, kind] =>
-    match Gozod.Gen.localeTable.lookup loc with
-    | some row =>
-      match row.lookup kind with
+    match Gozod.Gen.localeRows.lookup loc, Gozod.Gen.localeKinds.idxOf? kind with
+    | some row, some i =>
+      match row[i]? with
       | some b => (if b then "1" else "0") ++ " 1"
-      | none => "no-such-kind 1"
-    | none => "no-such-locale 1"
+      | none => "no-such-cell 1"
+    | some _, none => "no-such-kind 1"
+    | none, _ => "no-such-locale 1"
   | _ => "bad-op"
 
 end Gozod.Drv.C18
